@@ -6,7 +6,8 @@ from .. import core
 from .c04 import hexl
 
 NARROW = {"i8": "signed char", "u8": "unsigned char", "i16": "short", "u16": "unsigned short", "i32": "int", "u32": "unsigned", "i64": "std::int64_t", "u64": "std::uint64_t"}
-CORE = [(65, "i32"), (100, "u32"), (127, "i32"), (128, "i32"), (128, "u32"), (129, "i8"), (200, "i32"), (256, "u32"), (255, "i16"), (300, "i64"), (130, "u16"), (512, "u64")]
+CORE = [(65, "i32"), (100, "u32"), (127, "i32"), (128, "i32"), (128, "u32"), (129, "i8"), (200, "i32"), (256, "u32"), (255, "i16"), (300, "i64"), (130, "u16"), (512, "u64"),
+        (256, "u64"), (200, "i64"), (192, "u64"), (129, "i64")]
 MORE = [(96, "i32"), (257, "i32"), (500, "i32"), (1000, "i64"), (1024, "u8"), (2047, "i32"), (2048, "u64"), (129, "i64"), (200, "u8"), (200, "i16"), (200, "u64"), (256, "i8"), (383, "i32"), (640, "u16"), (136, "i8"), (72, "u8"), (1032, "u8")]
 RULE = ("kernel = wide_integer<Digits, Narrowest> (limb types of 8/16/32/64 bits, signed and unsigned, single-word __int128 storage and multi-limb storage). Operands are written directly into the limb array and results read back from it "
         "(so neither goes through the conversion code under test): 0, +-1, 2^k and 2^k+-1 across limb boundaries and at the top, two's complements, limb patterns for long-division corner cases (0x80.., 0x7f.., 0xff..fe, high/low halves), long carry chains "
